@@ -202,7 +202,10 @@ class Verdict:
         k = match_known(self.prop, why, site)
         if k is not None:
             self.known += 1
-            log(f"KNOWN-FINDING: property={self.prop} {k.get('id', '')} {why}")
+            self.known_ids = getattr(self, "known_ids", set())
+            if k.get("id") not in self.known_ids:      # one line per listed finding
+                self.known_ids.add(k.get("id"))
+                log(f"KNOWN-FINDING: property={self.prop} {k.get('id', '')} {why}")
             return
         # one replay file per distinct reason, at most 8 per run (the count is still exact)
         self.reasons = getattr(self, "reasons", {})
